@@ -8,8 +8,8 @@ import (
 	"encoding/binary"
 	"encoding/json"
 	"fmt"
-	"io"
 	"log"
+	"strings"
 	"sync"
 	"sync/atomic"
 	"testing"
@@ -28,8 +28,13 @@ import (
 
 const prop = "C04"
 
+// drops counts the messages the library reports as dropped (queue overflow).
+var drops = &netkit.DropLog{}
+
+const overflowClass = "C04:server-queue-overflow"
+
 func TestMain(m *testing.M) {
-	log.SetOutput(io.Discard)
+	log.SetOutput(drops)
 	vt.Main(m)
 }
 
@@ -57,7 +62,19 @@ func genCase(t *rapid.T) Case {
 	}
 	nsess := rapid.IntRange(1, 3).Draw(t, "sessions")
 	for s := 0; s < nsess; s++ {
+		// known finding (load shedding): more than 10 messages in flight on one
+		// connection may be refused. While it is listed a session has at most 4
+		// callers (a call and its cancel request: 8 messages) and posts are paced
+		// (see checkCase).
+		maxg := 6
+		if vt.Known(overflowClass) {
+			maxg = 4
+		}
 		ng := rapid.IntRange(1, 6).Draw(t, "goroutines")
+		if ng > maxg {
+			vt.Excluded(overflowClass)
+			ng = maxg
+		}
 		var gs [][]Op
 		for g := 0; g < ng; g++ {
 			n := rapid.IntRange(1, 6).Draw(t, "ops")
@@ -137,6 +154,8 @@ func checkCase(c Case) (verr error) {
 	}
 	defer raw.Close()
 
+	dropsBefore := drops.Count()
+	var postMu sync.Mutex
 	var recsMu sync.Mutex
 	var recs []*callRec
 	var postIDs sync.Map // message id -> tag
@@ -173,7 +192,16 @@ func checkCase(c Case) (verr error) {
 						id := raw.NextID()
 						postIDs.Store(id, tag)
 						rec.start = tick()
-						raw.Send(netkit.Frame{Type: netkit.Post, ID: id, Service: tg.svcID, Object: tg.objectID, Action: 101, Payload: netkit.StringPayload("quiet:" + tag)})
+						if vt.Known(overflowClass) {
+							// paced: the raw connection carries one post and the call
+							// which follows it, never a pile of posts
+							postMu.Lock()
+							raw.Send(netkit.Frame{Type: netkit.Post, ID: id, Service: tg.svcID, Object: tg.objectID, Action: 101, Payload: netkit.StringPayload("quiet:" + tag)})
+							raw.CallWait(tg.svcID, tg.objectID, 100, netkit.StringPayload("barrier"), bound)
+							postMu.Unlock()
+						} else {
+							raw.Send(netkit.Frame{Type: netkit.Post, ID: id, Service: tg.svcID, Object: tg.objectID, Action: 101, Payload: netkit.StringPayload("quiet:" + tag)})
+						}
 						rec.tag = "quiet:" + tag
 						rec.end = tick()
 						atomic.AddInt32(&rec.returned, 1)
@@ -220,6 +248,28 @@ func checkCase(c Case) (verr error) {
 	wg.Wait()
 	if atomic.LoadInt32(&hung) == 1 {
 		return vt.Violationf("C04:call-hangs", "a call did not return within %v", bound)
+	}
+	// load shedding: the library says so in its log and in the error text
+	shed := func() (bool, string) {
+		if n := drops.Count() - dropsBefore; n > 0 {
+			return true, fmt.Sprintf("the library logged %d dropped messages (consumer blocked)", n)
+		}
+		recsMu.Lock()
+		defer recsMu.Unlock()
+		for _, r := range recs {
+			if r.err != nil && strings.Contains(r.err.Error(), "consumer blocked") {
+				return true, fmt.Sprintf("call %s failed: %v", r.tag, r.err)
+			}
+		}
+		return false, ""
+	}
+	if yes, what := shed(); yes {
+		if vt.Known(overflowClass) {
+			vt.Excluded(overflowClass)
+			vt.Case(false, "shed", "load-shed-case-not-judged")
+			return nil
+		}
+		return vt.Violationf(overflowClass, "with several concurrent callers per connection the server refused messages: %s", what)
 	}
 	// raw phase: frames of every non-call type addressed to a live method
 	rawTags := map[string]uint8{}
